@@ -97,11 +97,12 @@ def run_one(ch, env):
            "extra": {"kind_" + cfg.kind: 1, "workers_%d" % workers: 1, "with_apex": int(cfg.apex is not None)}}
     
 
+    common.draw_progress(ch, res)
     # serial control (no scheduler involved)
     rec = Recorder(None, 0)
     rec.serial = []
     try:
-        cfg.build().walk(rec, parallel=1)
+        cfg.build().walk(rec, parallel=1, **common.pkw())
     except Exception as e:
         res["violation"] = viol(PROP, "serial-exception", "serial walk raised %r" % (e,))
         res["digest"] = "serial"
@@ -120,10 +121,10 @@ def run_one(ch, env):
     twice = ch.draw(4, kind="walk_twice") == 3     # a Pyramid object may be walked again: same result expected
 
     def main():
-        pyr.walk(rec, parallel=workers)
+        pyr.walk(rec, parallel=workers, **common.pkw())
         if twice:
             sim.event("second-walk", 0, 0, 0)
-            pyr.walk(rec, parallel=workers)
+            pyr.walk(rec, parallel=workers, **common.pkw())
 
     main_task = sim.run(main)
     common.sim_summary(sim, res)
